@@ -71,6 +71,12 @@ def gen(rng, tier, ctx):
         if rng.random() < 0.5:      # any stem over the property's alphabet [A-Za-z0-9_]
             stem = "".join(rng.choice(STEM_ALPHABET) for _ in range(rng.randint(1, 12)))
         paths.append((rng.choice(DIRS), stem, rng.choice(EXTS)))
+    if rng.random() < 0.06:
+        # a name with characters that mean something to a shell or to glob / fnmatch / re, next to the sibling
+        # such a pattern would match
+        d0 = rng.choice(["inputs", "inputs", "other"])
+        a_, b_ = rng.choice([("board[1]", "board1"), ("run_?", "run_a"), ("g*", "g_all"), ("set[ab]", "seta"), ("v1+x", "v1")])
+        paths = [(d0, a_, ".py"), (d0, b_, ".py")] + paths
     if rng.random() < 0.25:
         # the same file name in two folders (a copy that was edited), one of them possibly the working directory
         d0, s0, e0 = paths[0]
@@ -88,6 +94,8 @@ def gen(rng, tier, ctx):
                 "games": rng.sample(range(n), k), "style": rng.choice(textstyle.STYLES), "seed": rng.randint(0, 999)}
 
     opl.append(write(paths[0]))
+    if len(paths) >= 2 and paths[0][0] == paths[1][0] and paths[0][1] != paths[1][1]:
+        opl.append(write(paths[1]))         # the sibling exists before the first run
     session = rng.random() < 0.3      # a long-lived session calling reader / run_games / writer itself
     for _ in range(rng.randint(2, 11 if tier == "thorough" else 8)):
         r = rng.random()
